@@ -620,7 +620,7 @@ Proof.
   unfold fixup, sclose.
   destruct (k_tr s) eqn:Htr; cbn.
   - repeat split; cbn; auto.
-  - rewrite Htr. repeat split; auto.
+  - unfold clean. rewrite Htr. exact (conj Hc (conj Ht Hr)).
 Qed.
 
 Lemma pump_clean : forall f s, clean s -> clean (fst (pump true f s)).
@@ -687,7 +687,174 @@ Example socks_clean_fixed_same_inputs :
   k_crash (feed_all true [[9; 9; 4; 1; 0; 80; 1; 2; 3; 4; 0]]) = false.
 Proof. vm_compute. split; reflexivity. Qed.
 
+(* ---------------------------------------------------------------------------------------- *)
+(* 4. The loop fuel.  On an arbitrary (unreachable) state the loop need not terminate at all:
+   a handler waiting for 0 bytes whose call changes nothing spins forever, in the model as in
+   the Python code.  So the fuel statement needs the invariant [wf] that every reachable state
+   has (a handler other than the two data-dependent ones never waits for 0 bytes). *)
+
+Example pump_no_oof_unrestricted_refuted :
+  exists fx s, k_oof s = false /\ k_oof (fst (pump fx (pump_fuel s) s)) = true.
+Proof. exists false, (sclose (set_h sk0 HVersion 0)). vm_compute. split; reflexivity. Qed.
+
+Definition wf (s : sk) : Prop :=
+  match k_h s with
+  | HNone | HS5Auth | HS5Host => True
+  | HS4User | HS4Host => k_need s < 0
+  | _ => 0 < k_need s
+  end.
+
+(* bound on the number of iterations that consume no input *)
+Definition zr (s : sk) : nat :=
+  match k_h s with
+  | HVersion => 3
+  | HS5Auth => if k_tr s then 3 else 2
+  | HS5Cmd | HS5Addr | HS5HostLen | HS5Host => 2
+  | HS5Port => 1
+  | _ => 0
+  end.
+
+Ltac crush_call :=
+  unfold callx, fixup, call; cbn;
+  unfold sconnect, swrite, sclose, set_h, set_host, set_port, set_atyp, set_buf, crash; cbn;
+  case_ifs; cbn; auto; try lia.
+
+Lemma callx_wf fx s d : wf s -> wf (callx fx s d).
+Proof.
+  destruct s as [h need buf host port atyp tr out req early cr oo].
+  unfold wf; cbn. intros Hw. destruct fx, h, tr, cr; crush_call.
+Qed.
+
+Lemma callx_oof fx s d : k_oof (callx fx s d) = k_oof s.
+Proof.
+  destruct s as [h need buf host port atyp tr out req early cr oo].
+  destruct fx, h, tr, cr; crush_call.
+Qed.
+
+Lemma k_buf_callx fx s d : k_buf (callx fx s d) = k_buf s.
+Proof.
+  unfold callx, fixup. destruct (fx && k_tr s && negb (k_tr (call s d))); cbn; apply k_buf_call.
+Qed.
+
+Lemma callx_zr fx s d :
+  k_crash (callx fx s d) = true \/ (zr (callx fx s d) <= zr s)%nat.
+Proof.
+  destruct s as [h need buf host port atyp tr out req early cr oo].
+  unfold zr; cbn. destruct fx, h, tr, cr; crush_call.
+Qed.
+
+Lemma callx_zr0 fx s :
+  wf s -> k_h s <> HNone -> k_need s = 0 ->
+  k_crash (callx fx s []) = true \/ (zr (callx fx s []) < zr s)%nat.
+Proof.
+  destruct s as [h need buf host port atyp tr out req early cr oo].
+  unfold wf, zr; cbn. intros Hw Hh ->. destruct h; try lia; try congruence;
+    destruct fx, tr, cr; crush_call.
+Qed.
+
+Lemma find0_length l d rest :
+  find0 l = Some (d, rest) -> length l = (length d + 1 + length rest)%nat.
+Proof.
+  revert d rest; induction l as [|x l IH]; intros d rest H; cbn in H; [discriminate|].
+  destruct (x =? 0).
+  - inversion H; subst. cbn. lia.
+  - destruct (find0 l) as [[a b]|]; [|discriminate]. inversion H; subst.
+    cbn. rewrite (IH a rest eq_refl). lia.
+Qed.
+
+Lemma close_oof fx s : k_oof (fixup fx s (sclose s)) = k_oof s.
+Proof. unfold fixup, sclose. destruct fx, (k_tr s); reflexivity. Qed.
+
+Lemma close_wf fx s : wf s -> wf (fixup fx s (sclose s)).
+Proof.
+  destruct s as [h need buf host port atyp tr out req early cr oo].
+  unfold wf, fixup, sclose; cbn. destruct fx, tr; cbn; auto; destruct h; auto.
+Qed.
+
+Lemma pump_wf fx : forall f s, wf s -> wf (fst (pump fx f s)).
+Proof.
+  induction f as [|f IH]; intros s Hs.
+  - cbn [pump]. destruct (k_crash s); [exact Hs|]. destruct (is_none (k_h s)); exact Hs.
+  - rewrite pump_S. destruct (k_crash s); [exact Hs|]. destruct (is_none (k_h s)); [exact Hs|].
+    destruct (k_need s <? 0).
+    + destruct (find0 (k_buf s)) as [[d rest]|].
+      * apply IH. apply callx_wf. exact Hs.
+      * destruct (Z.of_nat (length (k_buf s)) >? 255); [apply close_wf; exact Hs | exact Hs].
+    + destruct (Z.of_nat (length (k_buf s)) >=? k_need s); [| exact Hs].
+      apply IH. apply callx_wf. exact Hs.
+Qed.
+
+Lemma pump_fuel_enough fx : forall f s,
+  wf s -> k_oof s = false -> (length (k_buf s) + zr s < f)%nat ->
+  k_oof (fst (pump fx f s)) = false.
+Proof.
+  induction f as [|f IH]; intros s Hw Ho Hf; [lia|].
+  assert (Hstep : forall d rest,
+            (length rest < length (k_buf s))%nat \/
+            (rest = k_buf s /\ d = [] /\ k_need s = 0 /\ k_h s <> HNone) ->
+            k_oof (fst (pump fx f (callx fx (set_buf s rest) d))) = false).
+  { intros d rest Hcase.
+    set (s' := callx fx (set_buf s rest) d).
+    assert (Ho' : k_oof s' = false) by (unfold s'; rewrite callx_oof; exact Ho).
+    assert (Hw' : wf s') by (apply callx_wf; exact Hw).
+    assert (Hb' : k_buf s' = rest) by (unfold s'; rewrite k_buf_callx; reflexivity).
+    destruct (k_crash s') eqn:Hc'.
+    - rewrite (pump_crashed fx f s' Hc'). exact Ho'.
+    - apply IH; try assumption. rewrite Hb'.
+      destruct Hcase as [Hlt | (-> & -> & Hn & Hh)].
+      + destruct (callx_zr fx (set_buf s rest) d) as [Hc | Hz]; [fold s' in Hc; congruence|].
+        fold s' in Hz. change (zr (set_buf s rest)) with (zr s) in Hz. lia.
+      + destruct (callx_zr0 fx (set_buf s (k_buf s)) Hw Hh Hn) as [Hc | Hz];
+          [fold s' in Hc; congruence|].
+        fold s' in Hz. change (zr (set_buf s (k_buf s))) with (zr s) in Hz. lia. }
+  rewrite pump_S. destruct (k_crash s); [exact Ho|].
+  destruct (is_none (k_h s)) eqn:Hn; [exact Ho|].
+  assert (Hh : k_h s <> HNone) by (intros E; rewrite E in Hn; discriminate).
+  destruct (k_need s <? 0) eqn:Hneg.
+  - destruct (find0 (k_buf s)) as [[d rest]|] eqn:Hfind.
+    + apply Hstep. left. apply find0_length in Hfind. lia.
+    + destruct (Z.of_nat (length (k_buf s)) >? 255); cbn [fst]; rewrite ?close_oof; exact Ho.
+  - destruct (Z.of_nat (length (k_buf s)) >=? k_need s) eqn:Hge; [| exact Ho].
+    apply Hstep. destruct (Z.eq_dec (k_need s) 0) as [Hz | Hz].
+    + right. rewrite Hz. cbn. auto.
+    + left. rewrite skipn_length. lia.
+Qed.
+
+Lemma zr_le s : (zr s <= 3)%nat.
+Proof. unfold zr. destruct (k_h s); try lia. destruct (k_tr s); lia. Qed.
+
+Theorem pump_no_oof :
+  forall fx s, wf s -> k_oof s = false -> k_oof (fst (pump fx (pump_fuel s) s)) = false.
+Proof.
+  intros fx s Hw Ho. apply pump_fuel_enough; try assumption.
+  unfold pump_fuel. pose proof (zr_le s). lia.
+Qed.
+
+Lemma data_received_wf fx s c :
+  wf s /\ k_oof s = false -> wf (data_received fx s c) /\ k_oof (data_received fx s c) = false.
+Proof.
+  intros (Hw & Ho). unfold data_received. destruct (is_none (k_h s)).
+  - destruct c; split; assumption.
+  - pose proof (pump_no_oof fx (set_buf s (k_buf s ++ c)) Hw Ho) as Hp.
+    pose proof (pump_wf fx (pump_fuel (set_buf s (k_buf s ++ c))) (set_buf s (k_buf s ++ c)) Hw)
+      as Hq.
+    destruct (pump fx _ _) as [s' ft]. cbn [fst] in Hp, Hq.
+    destruct ft; [| split; assumption]. destruct (k_buf s'); split; assumption.
+Qed.
+
+(* the fuel never runs out on any input, for the code as it is and for the repaired code *)
+Theorem feed_all_no_oof : forall fx chunks, k_oof (feed_all fx chunks) = false.
+Proof.
+  intros fx chunks. unfold feed_all.
+  assert (H0 : wf sk0 /\ k_oof sk0 = false) by (unfold wf; cbn; split; [lia | reflexivity]).
+  revert H0. generalize sk0. induction chunks as [|c cs IH]; intros s Hs; [exact (proj2 Hs)|].
+  cbn [fold_left]. apply IH. unfold feed. destruct (k_crash s || negb (k_tr s)); [exact Hs|].
+  apply data_received_wf. exact Hs.
+Qed.
+
 Print Assumptions socks_parse_spec.
 Print Assumptions socks_clean_fixed.
 Print Assumptions socks_closed_no_request_fixed.
 Print Assumptions socks_clean_head_refuted.
+Print Assumptions pump_no_oof.
+Print Assumptions feed_all_no_oof.
